@@ -221,6 +221,9 @@ pub struct ZervCall {
     pub rm_cwd: bool,
     pub stdout: crate::proc::Stdout,
     pub stderr: crate::proc::Stdout,
+    /// run this executable instead of ctx.zerv (e.g. a symlink to it)
+    pub exe: Option<PathBuf>,
+    pub umask: Option<u32>,
 }
 
 impl ZervCall {
@@ -236,6 +239,8 @@ impl ZervCall {
             rm_cwd: false,
             stdout: crate::proc::Stdout::Capture,
             stderr: crate::proc::Stdout::Capture,
+            exe: None,
+            umask: None,
         }
     }
     pub fn args_string(&self) -> String {
@@ -269,7 +274,7 @@ pub fn run_zerv(ctx: &Ctx, rd: &RunDir, call: &ZervCall, stats: &mut Stats) -> O
         env.push((k.clone(), v.clone()));
     }
     let spec = Spec {
-        exe: ctx.zerv.clone(),
+        exe: call.exe.clone().unwrap_or_else(|| ctx.zerv.clone()),
         args: call.args.clone(),
         env: env.into_iter().map(|(k, v)| (OsString::from(k), OsString::from(v))).collect(),
         cwd: call.cwd.clone(),
@@ -278,6 +283,7 @@ pub fn run_zerv(ctx: &Ctx, rd: &RunDir, call: &ZervCall, stats: &mut Stats) -> O
         mem_limit: Some(8 << 30),
         stdout: call.stdout,
         stderr: call.stderr,
+        umask: call.umask,
     };
     stats.zerv_spawns += 1;
     proc::run(&spec)
